@@ -489,6 +489,13 @@ typedef struct _rfbClient {
 
         /* flag to indicate wheter updateRect is managed by lib or user */
         rfbBool isUpdateRectManagedByLib;
+
+#ifdef LIBVNCSERVER_HAVE_LIBZ
+        /** ZRLE has a zlib stream of its own: servers keep one deflate stream per
+         *  encoding (Zlib and ZRLE can alternate on one connection) */
+        z_stream zrleStream;
+        rfbBool zrleStreamInited;
+#endif
 } rfbClient;
 
 /* cursor.c */
